@@ -627,11 +627,15 @@ package url
 //@   ensures url != nil ==> url.searchParams == old(url.searchParams)   [C12]
 //@   ensures url != nil ==> url.parser == p
 //@   ensures (url != nil && result1 == nil) ==> url.inputUrl == old(cleaned(urlOrRef))   [C05 setter-input-cleaning]
+//@   ensures (url != nil && !p.opts.failOnValidationError) ==> url.inputUrl == old(cleaned(urlOrRef))   [C05 setter-input-cleaning]
 //@   ensures (url != nil && (stateOverride == StateHost || stateOverride == StateHostname) && old(url.scheme) != "file" && result1 == nil && !p.opts.acceptInvalidCodepoints && (hostEnd(url) >= inN(url) || (inC(url)[hostEnd(url)] != 0x5B && (inC(url)[hostEnd(url)] != 0x3A || stateOverride == StateHost))) && domainCaseS(url, hostText(url))) ==>
 //@           (url.host != nil && *url.host == specHostASCII(hostText(url)))   [C05,C09 host-setter-value]
 //@   ensures (url != nil && (stateOverride == StateHost || stateOverride == StateHostname) && old(url.scheme) == "file" && result1 == nil && fileHostText(url) == "") ==> (url.host != nil && *url.host == "")   [C05 host-setter-value]
 //@   ensures (url != nil && (stateOverride == StateHost || stateOverride == StateHostname) && old(url.scheme) == "file" && result1 == nil && fileHostText(url) != "" && domainCaseS(url, fileHostText(url))) ==>
 //@           (url.host != nil && *url.host == (specHostASCII(fileHostText(url)) == "localhost" ? "" : specHostASCII(fileHostText(url))))   [C05,C09 host-setter-file-localhost]
+//@   ensures (url != nil && stateOverride == StatePort && result1 != nil) ==> (url.port == old(url.port) && url.decodedPort == old(url.decodedPort))   [C05 port-setter-failure-changes-nothing]
+//@   ensures (url != nil && stateOverride == StatePort && result1 == nil) ==> (portDigits(url) != "" && specAtoiOK(portDigits(url)) && specAtoiVal(portDigits(url)) <= 65535 && ((special(url, url.scheme) && defPort(url, url.scheme) == specItoa(specAtoiVal(portDigits(url)))) ? (url.port == nil && url.decodedPort == 0) : (url.port != nil && *url.port == specItoa(specAtoiVal(portDigits(url))) && url.decodedPort == specAtoiVal(portDigits(url)))))   [C05 port-setter-value]
+//@   ensures (url != nil && stateOverride == StatePort && !p.opts.failOnValidationError && portDigits(url) != "" && specAtoiOK(portDigits(url)) && specAtoiVal(portDigits(url)) <= 65535) ==> result1 == nil   [C05 port-setter-accepts]
 //@   ensures (url != nil && stateOverride == StateSchemeStart) ==> special(url, url.scheme) == old(special(url, url.scheme))   [C05,C07,C09 scheme-setter-keeps-specialness]
 //@   ensures (url != nil && stateOverride == StateSchemeStart && url.scheme != old(url.scheme)) ==>
 //@           (url.inputUrl == old(cleaned(urlOrRef)) && hasSch(url) && url.scheme == specLowerRunes(inC(url), schEnd(url)))   [C05 protocol-value]
@@ -870,6 +874,8 @@ package url
 //@   loop 1 step (prev(state) == StateOpaquePath && !stateOverridden && (r == 0x3F || r == 0x23)) ==> (firstQH(url) == prev(input.pointer) + 1 && url.path == prev(url.path)
 //@            && url.path.p == prev(url.path.p) && url.path.p[0] == prev(url.path.p[0]) && url.path.opaque == prev(url.path.opaque))   [C01 opaque-path-ends-at-the-first-delimiter]
 //@   loop 1 step input.pointer == prev(input.pointer) + 2 ==> (inC(url)[input.pointer] == 0x2F && inC(url)[input.pointer - 1] != 0x23 && inC(url)[input.pointer - 1] != 0x3F)   [C01 two-code-points-consumed-only-before-a-slash]
+//@   loop 1 invariant (stateOverride == StatePort && state == StatePort) ==> (bufv(buffer) == specRuneStr(inC(url), input.pointer + 1) && specDigitsPrefix(inC(url), input.pointer + 1)
+//@            && url.port == old(url.port) && url.decodedPort == old(url.decodedPort))
 //@   loop 1 invariant (stateOverride == StatePathStart && state == StatePathStart) ==> len(url.path.p) == 0
 //@   loop 1 invariant old(url) == nil ==> allNonFatal(url)
 //@   loop 1 invariant (old(url) == nil ? (old(baseUrl == nil || collapsedOK(baseUrl)) && (baseUrl == nil || shapeP(baseUrl))) : old(collapsedOK(url))) ==> collapsedOK(url)
@@ -1023,6 +1029,9 @@ package url
 //@   ensures (old(u.host) == nil || old(*u.host) == "" || old(u.scheme) == "file") ==> sameUrl(u)   [C05]
 //@   ensures (!(old(u.host) == nil || old(*u.host) == "" || old(u.scheme) == "file") && port == "") ==> (u.port == nil && u.decodedPort == 0)   [C05]
 //@   ensures sameButPort(u)   [C05]
+//@   ensures (!(old(u.host) == nil || old(*u.host) == "" || old(u.scheme) == "file") && port != "" && !u.parser.opts.failOnValidationError && u.inputUrl == old(cleaned(port)) && (portDigits(u) != "" && specAtoiOK(portDigits(u)) && specAtoiVal(portDigits(u)) <= 65535)) ==> ((special(u, u.scheme) && defPort(u, u.scheme) == specItoa(specAtoiVal(portDigits(u)))) ? (u.port == nil && u.decodedPort == 0) : (u.port != nil && *u.port == specItoa(specAtoiVal(portDigits(u))) && u.decodedPort == specAtoiVal(portDigits(u))))   [C05 port-setter-value]
+//@   ensures (!(old(u.host) == nil || old(*u.host) == "" || old(u.scheme) == "file") && port != "" && u.inputUrl == old(cleaned(port)) && !(portDigits(u) != "" && specAtoiOK(portDigits(u)) && specAtoiVal(portDigits(u)) <= 65535)) ==> (u.port == old(u.port) && u.decodedPort == old(u.decodedPort))   [C05 port-setter-failure-changes-nothing]
+//@   ensures (!(old(u.host) == nil || old(*u.host) == "" || old(u.scheme) == "file") && port != "" && !u.parser.opts.failOnValidationError) ==> u.inputUrl == old(cleaned(port))   [C05 setter-input-cleaning]
 //@ func (*Url).SetPathname
 //@   noreads url.parserOptions.reportValidationErrors, url.parserOptions.failOnValidationError, url.Url.validationErrors except (*parser).handleError, (*parser).handleErrorWithDescription, (*parser).handleWrappedError   [C15 diagnostics-options-read-only-by-the-error-handlers]
 //@   requires wf(u)
